@@ -283,9 +283,8 @@ func TestC03(t *testing.T) {
 	ev := vlib.NewEvidence("C03", "exploration",
 		"per case: a pool with minimum in {nil,-1e6,-1,0,1,1e6,1e20}; hosts connect with balances around the minimum (never refused); a client connects with spendable balance (all deposit/credit splits, linked or trial) in {min-1,min,min+1,far below,far above,near}; then 1-5 billed keep-alives whose charge (0,1,small,~1e6,1 hour of ns per peer) and post-charge balance class are chosen independently; oracle: refusal/cut-off iff balance-after-charge < min, reported balance = stored balance, disconnect fan-out to every connected host peering with the client; non-trivial = minimum configured (updates: and something billed); distinct = (min, class, charge class, peers, linked)")
 	for _, driver := range vlib.Drivers() {
-		for i := 0; i < vlib.Scale(400, 10000); i++ {
-			c03Case(ev, driver, i)
-		}
+		driver := driver
+		parallelCases(vlib.Scale(1500, 30000), 8, func(i int) { c03Case(ev, driver, i) })
 	}
 	finish(t, ev)
 }
